@@ -319,10 +319,10 @@ def rule_d(rep: Report, idx: SourceIndex, nm: NodeModel) -> None:
 			elif s.endswith('__exec_impl'):
 				seq.append((n.lineno, 'impl'))
 	r.check([k for _, k in sorted(seq)] == ['push', 'impl', 'pop'], 'exec-stack-balanced', ex.where, f'exec must push one stack, run, pop one stack: {sorted(seq)}')
-	pm = parent_map(ex.node)
-	in_finally = any(isinstance(pm.get(id(s)), ast.Try) for s in ast.walk(ex.node) if isinstance(s, ast.Expr) and 'stacks.pop' in unparse(s))
-	if not in_finally:
-		r.note('exec pops its stack without try/finally: a handler that catches an exception raised by a nested exec on the same Procedure would leave an extra stack (no such handler found today; not armed)')
+	# the pop runs on every way out: a nested exec that raises (and whose caller recovers) must not leave its stack on top of the outer run's stack
+	pops = [n for n in ast.walk(ex.node) if isinstance(n, ast.Call) and unparse(n.func).endswith('__stacks.pop')]
+	in_finally = any(any(p_ is x for t in ast.walk(ex.node) if isinstance(t, ast.Try) for s_ in t.finalbody for x in ast.walk(s_)) for p_ in pops)
+	r.check(in_finally, 'exec-stack-popped-on-failure', ex.where, 'Procedure.exec pops its result stack only when the run succeeds: after a nested exec raised and its caller recovered, the outer run continues on the dead stack and builds its result from the failed run\'s leftovers (`a + b` -> Sum[\'c\', \'*\', \'b\']); pop in a finally block')
 	res = meth['__result']
 	r.check(any(isinstance(n, ast.Assert) and 'len(self.__stack) == 1' in unparse(n) for n in ast.walk(res.node)), 'result-size-one', res.where, '__result no longer asserts that exactly one result is left')
 	# pop order (matched over __make_event and the private helpers it calls, on alias-expanded bodies)
@@ -364,6 +364,10 @@ def rule_d(rep: Report, idx: SourceIndex, nm: NodeModel) -> None:
 		r.skip('flatten-order:post-order', pr.where, 'no `[*child.procedural(), child]` display in Node.procedural')
 	for n, tag in disp:
 		r.check(tag == 'post', 'flatten-order:post-order', pr.where, f'Node.procedural must list a child after its own descendants (`{unparse(n)}`): Procedure pops the children\'s results when the parent is reached', unparse(n))
+	# every listed occurrence is walked: Procedure pops len(getattr(node, key)) results per key, so the flattening must not drop a node that is
+	# listed under two properties
+	dedups = [c_ for c_ in nodes(pcl[0], ast.Call) if unparse(c_.func) in ('dict.fromkeys', 'set', 'OrderedDict.fromkeys', 'frozenset', 'unique')]
+	r.check(not dedups, 'flatten-order:every-occurrence', pr.where, f'Node.procedural de-duplicates the flattened nodes (`{unparse(dedups[0])[:60] if dedups else ""}`): a node reachable through two expandable properties is walked once but popped once per property, so results shift between the properties (Class.inherits / inherit_sub_types of `class B(G[int])`)', unparse(dedups[0])[:80] if dedups else '')
 	piters = [it for it in (deref(fn, n.iter) for fn in pcl for n in nodes(fn, (ast.For, ast.comprehension))) if has_call(it, 'prop_keys')]
 	if not piters:
 		r.skip('flatten-order:keys', pr.where, 'Node.procedural (and helpers) no longer iterate self.prop_keys()')
